@@ -97,6 +97,7 @@ func (e *Engine) load(pkgPaths []string) error {
 		}
 	}
 	e.bindFingerprints()
+	e.inferInitOnlyGlobals()
 	return nil
 }
 
@@ -360,3 +361,64 @@ func (ob *Obligation) status() string {
 }
 
 func runSelftest(args []string) int { fmt.Println("not yet"); return 3 }
+
+// inferInitOnlyGlobals finds package-level variables of the module that are written only by
+// the package initialiser and only with obviously non-nil values (constructor calls of an
+// allow-list, make, composite literals, closures). Loads of such variables are non-nil.
+func (e *Engine) inferInitOnlyGlobals() {
+	e.nonNilGlobals = map[string]bool{}
+	ctor := map[string]bool{"errors.New": true, "fmt.Errorf": true, "regexp.MustCompile": true, "sync.NewCond": true}
+	type info struct {
+		bad  bool
+		good int
+	}
+	seen := map[*ssa.Global]*info{}
+	for fn := range ssautil.AllFunctions(e.prog) {
+		if fn.Pkg == nil || !(strings.HasPrefix(fn.Pkg.Pkg.Path(), "rare/") || fn.Pkg.Pkg.Path() == "rare") {
+			continue
+		}
+		isInit := fn.Name() == "init" && fn.Synthetic != ""
+		for _, b := range fn.Blocks {
+			for _, ins := range b.Instrs {
+				st, ok := ins.(*ssa.Store)
+				if !ok {
+					continue
+				}
+				g, ok := st.Addr.(*ssa.Global)
+				if !ok {
+					continue
+				}
+				in := seen[g]
+				if in == nil {
+					in = &info{}
+					seen[g] = in
+				}
+				if !isInit {
+					in.bad = true
+					continue
+				}
+				switch v := st.Val.(type) {
+				case *ssa.MakeMap, *ssa.MakeClosure, *ssa.MakeInterface, *ssa.Alloc, *ssa.MakeSlice, *ssa.Function, *ssa.MakeChan:
+					in.good++
+				case *ssa.Slice:
+					in.good++
+				case *ssa.Call:
+					if f, ok := v.Call.Value.(*ssa.Function); ok && ctor[strings.TrimPrefix(f.String(), "")] {
+						in.good++
+					} else if ok && (strings.HasPrefix(f.Name(), "New") || strings.HasPrefix(f.Name(), "Must")) {
+						in.good++
+					} else {
+						in.bad = true
+					}
+				default:
+					in.bad = true
+				}
+			}
+		}
+	}
+	for g, in := range seen {
+		if !in.bad && in.good > 0 {
+			e.nonNilGlobals["global:"+typeKeyPkg(g.Pkg.Pkg)+"."+g.Name()] = true
+		}
+	}
+}
